@@ -411,7 +411,9 @@ def _cond_terms(c):
 # C09 logmerge-shape
 # ---------------------------------------------------------------------------
 
-def rule_logmerge_shape(ctx):
+def rule_logmerge_shape(ctx, rounding=True):
+    """rounding=False: only the clauses about the reserved range and the ceiling (what a saturation property needs); the choice
+    between the two neighbouring counters and the re-encoding formula are left to the merge property."""
     F = facts_of(ctx)
     from .rules_hll import nf, parse_nf
     for mod, cname in COUNTMIN[1:]:
@@ -469,6 +471,11 @@ def rule_logmerge_shape(ctx):
                 if kind is None:
                     kind = "reencode"
                 seen.add(kind)
+        if not rounding:
+            for need in ("reserved", "ceiling"):
+                if need not in seen:
+                    ctx.ob("logmerge-shape", k, k.node, "%s: %s case" % (k.name, need), "three-way split reserved / ceiling / re-encode", False, "case missing")
+            continue
         # re-encode: nearest of clower / clower+1
         lows = [e for e in stores if isinstance(e.value, Num) and any(t[0] == "trunc" for t in e.value.lin.terms()) and e.value.lin.single_term() is None]
         ups = {}
